@@ -14,8 +14,9 @@ const (
 	LibraryDefault = BigEndian | HighWordFirst // documented default of Registers
 )
 
-// DocumentedOrders are the byte order constants the documentation names.
-var DocumentedOrders = []uint8{0, BigEndian, LittleEndian, BigEndian | LowWordFirst, BigEndian | HighWordFirst, LittleEndian | LowWordFirst, LittleEndian | HighWordFirst}
+// DocumentedOrders are the byte order constants the documentation names (the four flags on their own - a bare word-order flag
+// leaves the bytes in wire order, i.e. big endian - and the four combinations).
+var DocumentedOrders = []uint8{0, BigEndian, LittleEndian, BigEndian | LowWordFirst, BigEndian | HighWordFirst, LittleEndian | LowWordFirst, LittleEndian | HighWordFirst, LowWordFirst, HighWordFirst}
 
 // Access describes one typed read.
 type Access struct {
